@@ -208,8 +208,8 @@ Proof. vm_compute. repeat split; reflexivity. Qed.
    and `col <> ''` is not recognised inside a literal that starts with a quote) keeps the
    three-valued result of EVERY WHERE clause - any mix of AND / OR / NOT / parentheses over the
    five atom kinds - on EVERY row, hence the filter decision. *)
-Theorem C17_like_sound : forall r cl tail,
-  eval_clause r (optimize cl tail) = eval_clause r cl /\ keeps r (optimize cl tail) = keeps r cl.
+Theorem C17_like_sound : forall r cl tail wrap,
+  eval_clause r (optimize cl tail wrap) = eval_clause r cl /\ keeps r (optimize cl tail wrap) = keeps r cl.
 Proof. intros. split; [apply optimize_sound|apply keeps_sound]. Qed.
 Print Assumptions C17_like_sound.
 
@@ -233,17 +233,17 @@ Definition like_quote_clause : clause :=
 Definition like_quote_row : row := [Some "p"%string; None; Some "z"%string; None; None].
 
 Example C17_like_regression_witnesses :
-  print_query like_or_clause 0 = B "SELECT id FROM r WHERE a LIKE 'x' OR b = '1' AND c <> ''" /\
-  optimize like_or_clause 0 = like_or_clause /\ keeps like_or_row like_or_clause = true /\
-  print_query like_quote_clause 0 = B "SELECT id FROM r WHERE a LIKE 'p' AND c <> '''x'" /\
-  optimize like_quote_clause 0 = like_quote_clause /\ keeps like_quote_row like_quote_clause = true.
+  print_query like_or_clause 0 0 = B "SELECT id FROM r WHERE a LIKE 'x' OR b = '1' AND c <> ''" /\
+  optimize like_or_clause 0 0 = like_or_clause /\ keeps like_or_row like_or_clause = true /\
+  print_query like_quote_clause 0 0 = B "SELECT id FROM r WHERE a LIKE 'p' AND c <> '''x'" /\
+  optimize like_quote_clause 0 0 = like_quote_clause /\ keeps like_quote_row like_quote_clause = true.
 Proof. vm_compute. repeat split; reflexivity. Qed.
 
 Example C17_like_sound_nonvacuous :     (* clauses that ARE reordered: an AND chain with a negated OR tree, on a row with a NULL *)
   let ch := [{| f_negs := 0; f_body := FAtom (ALike 0 "%x%") |};
              {| f_negs := 1; f_body := FAtom (AIsNull 3) |};
              {| f_negs := 0; f_body := FAtom (ANonEmpty 2) |}] in
-  print_query (optimize [ch] 1) 1 = B "SELECT id FROM r WHERE c <> '' AND a LIKE '%x%' AND NOT d IS NULL ORDER BY id" /\
+  print_query (optimize [ch] 1 0) 1 0 = B "SELECT id FROM r WHERE c <> '' AND a LIKE '%x%' AND NOT d IS NULL ORDER BY id" /\
   eval_clause [Some "axc"%string; None; None; Some "z"%string; None] [ch] = None.
 Proof. vm_compute. repeat split; reflexivity. Qed.
 
@@ -252,3 +252,13 @@ Example C17_date_trunc_eq_nonvacuous :
   rewritten_value (DT UDay) 1704848399400000 = Some 1704844800000000 /\
   eval_orig (DT UDay) 1704848399400000 = Some 1704844800000000.
 Proof. vm_compute. repeat split; try reflexivity; intro; discriminate. Qed.
+
+(* groups and wrapped statements: the trailing check stays inside NOT ( ... ) and inside a derived
+   table, where it is followed by ')' and not by a clause terminator *)
+Example C17_like_group_untouched :
+  let g := {| f_negs := 1; f_body := FGroup false [{| g_negs := 0; g_atom := ALike 0 "%x%" |}; {| g_negs := 0; g_atom := ANonEmpty 2 |}] |} in
+  print_query [[g]] 0 0 = B "SELECT id FROM r WHERE NOT (a LIKE '%x%' AND c <> '')" /\
+  optimize [[g]] 0 0 = [[g]] /\
+  print_query (optimize [[{| f_negs := 0; f_body := FAtom (AEq 1 "1") |}; {| f_negs := 0; f_body := FAtom (ALike 0 "x%") |}; {| f_negs := 0; f_body := FAtom (ANonEmpty 2) |}]] 1 1) 1 1
+    = B "SELECT id FROM (SELECT * FROM r WHERE b = '1' AND a LIKE 'x%' AND c <> '') t ORDER BY id".
+Proof. vm_compute. repeat split; reflexivity. Qed.
